@@ -116,9 +116,11 @@ GradleEntries(k) ==
 \* what is written around the dependencies block
 PomSurround ==
   CASE SurroundLevel = 0 -> {<<<<>>, <<>>>>}
-    [] SurroundLevel = 1 -> {<<<<>>, <<>>>>, <<<<"coords", "depMgmt">>, <<"build">>>>, <<<<"comment", "properties">>, <<"profiles", "comment">>>>}
+    [] SurroundLevel = 1 -> {<<<<>>, <<>>>>, <<<<"coords", "depMgmt">>, <<"build">>>>, <<<<"comment", "properties">>, <<"profiles", "comment">>>>,
+                             <<<<"reporting">>, <<>>>>}
     [] OTHER -> {<<<<>>, <<>>>>, <<<<"coords", "depMgmt">>, <<"build">>>>, <<<<"comment", "properties">>, <<"profiles", "comment">>>>,
-                 <<<<"parent", "meta", "modules">>, <<"repositories", "depMgmt">>>>, <<<<"profiles", "build">>, <<"coords">>>>}
+                 <<<<"parent", "meta", "modules">>, <<"repositories", "depMgmt">>>>, <<<<"profiles", "build">>, <<"coords">>>>,
+                 <<<<"reporting", "coords">>, <<"reporting">>>>}
 GradleSurround ==
   CASE SurroundLevel = 0 -> {<<<<>>, <<>>>>}
     [] SurroundLevel = 1 -> {<<<<>>, <<>>>>, <<<<"plugins", "buildscript">>, <<"test">>>>, <<<<"comment", "coords">>, <<"comment">>>>}
@@ -176,6 +178,10 @@ PomSection(s) ==
     [] s = "modules"      -> Wrap("modules", Leaf("module", "core"))
     [] s = "repositories" -> Wrap("repositories", Wrap("repository", Leaf("id", "central")))
     [] s = "comment"      -> <<TComment, Ws>>
+    \* a reporting plug-in whose configuration uses element names that HTML knows as void elements (link, param, base, meta):
+    \* to an XML reader they are ordinary elements with content and an end tag
+    [] s = "reporting"    -> Wrap("reporting", Wrap("plugins", Wrap("plugin", Leaf("groupId", "org.plugin.docs") \o
+                               Wrap("configuration", Wrap("links", Leaf("link", "https://docs.example.org/api/")) \o Leaf("param", "-Xdoclint:none") \o Leaf("base", ".") \o Leaf("meta", "x")))))
 
 Sections(ss) == Flat([k \in DOMAIN ss |-> PomSection(ss[k])])
 PomOpen(b)  == <<TStart("project"), Ws>> \o Leaf("modelVersion", "4.0.0") \o Sections(b) \o <<TStart("dependencies"), Ws>>
